@@ -33,9 +33,9 @@ example :
     let p : Name := [112]; let L : Flav := [76]
     let dirs : List DirEnt := [⟨⟨0, relDir L p [49]⟩, p⟩]
     let dry := step (World.init 2 dirs)
-      (.run 0 (.declare ⟨L, p, [49], some ⟨0, relDir L p [49]⟩, none, false, none, false, true, []⟩) none)
+      (.run 0 (.declare ⟨L, p, [49], some ⟨0, relDir L p [49]⟩, none, .dflt, none, false, true, []⟩) none)
     let real := step (World.init 2 dirs)
-      (.run 0 (.declare ⟨L, p, [49], some ⟨0, relDir L p [49]⟩, none, false, none, false, false, []⟩) none)
+      (.run 0 (.declare ⟨L, p, [49], some ⟨0, relDir L p [49]⟩, none, .dflt, none, false, false, []⟩) none)
     (dry.db.decls.length, dry.db.tags.length, real.db.decls.length, real.db.tags.length) = (0, 0, 1, 1) := by
   decide
 
@@ -44,7 +44,7 @@ example :
     let p : Name := [112]; let L : Flav := [76]
     let dirs : List DirEnt := [⟨⟨0, relDir L p [49]⟩, p⟩]
     let w := step (World.init 2 dirs)
-      (.run 0 (.declare ⟨L, p, [49], some ⟨0, relDir L p [49]⟩, none, false, none, false, false, []⟩) none)
+      (.run 0 (.declare ⟨L, p, [49], some ⟨0, relDir L p [49]⟩, none, .dflt, none, false, false, []⟩) none)
     let dry := step w (.run 0 (.remove L p [49] false true false none) none)
     let real := step w (.run 0 (.remove L p [49] false false false none) none)
     (dry.db.decls.length, dry.dirs.length, real.db.decls.length, real.dirs.length) = (1, 1, 0, 0) := by
@@ -55,9 +55,9 @@ example :
     let p : Name := [112]; let L : Flav := [76]
     let dirs : List DirEnt := [⟨⟨0, relDir L p [49]⟩, p⟩]
     let dry := step (World.init 2 dirs)
-      (.run 0 (.declare ⟨L, p, [49], some ⟨0, relDir L p [49]⟩, none, false, none, false, true, [([100], 1)]⟩) none)
+      (.run 0 (.declare ⟨L, p, [49], some ⟨0, relDir L p [49]⟩, none, .dflt, none, false, true, [([100], 1)]⟩) none)
     let real := step (World.init 2 dirs)
-      (.run 0 (.declare ⟨L, p, [49], some ⟨0, relDir L p [49]⟩, none, false, none, false, false, [([100], 1)]⟩) none)
+      (.run 0 (.declare ⟨L, p, [49], some ⟨0, relDir L p [49]⟩, none, .dflt, none, false, false, [([100], 1)]⟩) none)
     (dry.extras.length, real.extras.length) = (0, 1) := by decide
 
 end EupsModel.C15
